@@ -1,4 +1,5 @@
 import NettyVerif.Proofs.Frame
+import NettyVerif.Proofs.Guards
 /-! # C04 — Frame codecs round-trip or reject; boundaries exact under any fragmentation
 
 Property theorems only. Model: Model/Frame.lean (the codecs of codec/frame/*.go over a chunked
@@ -114,6 +115,60 @@ example : delimAdmissible [97, 97] [120] = true ∧ delimAdmissible [97, 97] [12
 example : stepRead true (.delim [13, 10] 16 true) [[104, 105, 13], [10, 106]] .eof = .msg [104, 105] [[106]] := by decide
 example : encodePrep { big := false, fieldLen := 1, adj := 0, incl := false } (List.replicate 300 0) = none := by decide +kernel
 
+/-! ### The guards as the code states them (T3: `Gen/Guards.lean` is regenerated from codec/frame/*.go on every run)
+
+`Guards.run` executes the extracted statement list (assignments, `utils.AssertIf`, `utils.Assert`, in
+source order) under Go's 64-bit integer semantics; `none` = the codec raises. The theorems below are
+about the *generated* lists: a change of a guard, of its order or of the length arithmetic in the
+source changes the list and the proof no longer checks. -/
+section Guards
+open NettyVerif.Guards
+
+/-- the constructor of LengthFieldCodec accepts exactly the configurations the model calls valid -/
+theorem C04_guards_lf_constructor (c : LFCfg) (env : Env) (he : LFEnv c env) (hm : I64 c.max) (hf : I64 c.fieldLen) :
+    (run Gen.Guards.LengthFieldCodec env).isSome = c.valid := by
+  rw [run_guardsOf, show guardsOf Gen.Guards.LengthFieldCodec = expLengthFieldCodec from rfl]
+  exact expLengthFieldCodec_sem c env he hm hf
+
+/-- packFieldLength raises exactly for the lengths the model's encoder refuses (negative, or
+    beyond what a field of 1 / 2 / 4 / 8 bytes carries) -/
+theorem C04_guards_pack_field_length (fieldLen dataLen : Int) (env : Env)
+    (hf : fieldLen = 1 ∨ fieldLen = 2 ∨ fieldLen = 4 ∨ fieldLen = 8) (hd : I64 dataLen)
+    (h1 : env.var "fieldLen" = fieldLen) (h2 : env.var "dataLen" = dataLen) (h3 : env.opq "default" = 0) :
+    (run Gen.Guards.packFieldLength env).isSome = !decide (dataLen < 0 ∨ dataLen > fieldMax fieldLen) := by
+  rw [run_guardsOf, show guardsOf Gen.Guards.packFieldLength = guardsOf expPackFieldLength from rfl, ← run_guardsOf]
+  exact expPackFieldLength_sem fieldLen dataLen env hf hd h1 h2 h3
+
+/-- the length the prepender writes into the field is body + adjustment (+ field width if asked),
+    as in `encodePrep`; its constructor accepts the four field widths only -/
+theorem C04_guards_prepender (pc : PrepCfg) (n : Nat) (env : Env)
+    (h1 : env.var "lengthAdjustment" = pc.adj) (h2 : env.var "lengthFieldLength" = pc.fieldLen)
+    (h3 : env.var "lengthIncludesLengthFieldLength" = b2i pc.incl) (h4 : env.len "bodyBytes" = n)
+    (ha : I64 (n + pc.adj)) (hb : I64 (n + pc.adj + pc.fieldLen)) :
+    (run Gen.Guards.lengthFieldPrepender_HandleWrite env).map (fun e => e.var "length") =
+        some ((n : Int) + pc.adj + (if pc.incl then pc.fieldLen else 0)) ∧
+    guardsOf Gen.Guards.LengthFieldPrepender =
+        [.assert (.lit 1) (.bin "&&" (.bin "&&" (.bin "&&" (.bin "!=" (.var "lengthFieldLength") (.lit 1)) (.bin "!=" (.var "lengthFieldLength") (.lit 2))) (.bin "!=" (.var "lengthFieldLength") (.lit 4))) (.bin "!=" (.var "lengthFieldLength") (.lit 8)))] := by
+  refine ⟨?_, rfl⟩
+  rw [run_guardsOf, show guardsOf Gen.Guards.lengthFieldPrepender_HandleWrite = guardsOf expPrepHandleWrite from rfl, ← run_guardsOf]
+  exact expPrepHandleWrite_sem pc n env h1 h2 h3 h4 ha hb
+
+/-- the varint encoder refuses exactly the bodies longer than the maximum (`encodeVarint`) -/
+theorem C04_guards_varint_write (max : Int) (n : Nat) (env : Env)
+    (h1 : env.var "maxFrameLength" = max) (h2 : env.len "bodyBytes" = n) :
+    (run Gen.Guards.varintLengthFieldCodec_HandleWrite env).isSome = !decide ((n : Int) > max) := by
+  rw [run_guardsOf, show guardsOf Gen.Guards.varintLengthFieldCodec_HandleWrite = guardsOf expVarintHandleWrite from rfl, ← run_guardsOf]
+  exact expVarintHandleWrite_sem max n env h1 h2
+
+-- premises satisfiable: a valid configuration with its environment
+example : LFEnv { big := true, max := 1024, offset := 2, fieldLen := 2, adj := 0, strip := 4 }
+    { var := fun n => if n = "maxFrameLength" then 1024 else if n = "lengthFieldOffset" then 2 else
+                      if n = "lengthFieldLength" then 2 else if n = "lengthAdjustment" then 0 else
+                      if n = "initialBytesToStrip" then 4 else 0, len := fun _ => 0, opq := fun _ => 0 } := by
+  simp [LFEnv]
+
+end Guards
+
 end NettyVerif.C04
 
 #print axioms NettyVerif.C04.C04_fragmentation_independent
@@ -126,3 +181,7 @@ end NettyVerif.C04
 #print axioms NettyVerif.C04.C04_stream
 #print axioms NettyVerif.C04.C04_stream_varint
 #print axioms NettyVerif.C04.C04_stream_fixed
+#print axioms NettyVerif.C04.C04_guards_lf_constructor
+#print axioms NettyVerif.C04.C04_guards_pack_field_length
+#print axioms NettyVerif.C04.C04_guards_prepender
+#print axioms NettyVerif.C04.C04_guards_varint_write
